@@ -17,11 +17,11 @@ CHUNK_ALPHA = [b"", b"a", b"bc"]
 _env = {}
 
 
-def get_env():
-    e = _env.get(0)
+def get_env(logsock=True):
+    e = _env.get(logsock)
     if e is None:
-        e = seq.Env(None)
-        _env[0] = e
+        e = seq.Env(None, log_socket_errors=logsock)
+        _env[logsock] = e
     return e
 
 
@@ -38,7 +38,7 @@ def request_bytes(i, req):
 
 
 def run_case(case):
-    env = get_env()
+    env = get_env(case.get("logsock", True))
     env.activate()
     recs = []
     env.app = apps.program_app(env, case["programs"], recs)
@@ -136,6 +136,8 @@ def judge(case, res):
             if r.body != want:
                 v.append(("body", f"{tag}: client recovers {r.body!r}, expected {want!r} (framing {r.framing})"))
         else:
+            if rec.raised is None and not (decl is not None and len(produced) < decl):
+                v.append(("incomplete-response", f"{tag}: the application produced everything it announced, but the client cannot delimit the response (framing {r.framing}, got {r.body!r}); wire={res['wire'][-80:]!r}"))
             if not want.startswith(r.body):
                 v.append(("body-prefix", f"{tag}: truncated body {r.body!r} is not a prefix of {want!r}"))
             if not (last and res["closed"]):
@@ -172,7 +174,7 @@ def programs(tier):
     bodies = [list(t) for n in range(0, maxlen + 1) for t in itertools.product(CHUNK_ALPHA, repeat=n)]
     out = []
     for status in ("200 OK", "404 Not Found", "204 No Content", "304 Not Modified", "100 Continue"):
-        for delivery in ("list", "gen", "write", "write+iter", "fw", "fw-noseek"):
+        for delivery in ("list", "gen", "write", "write+iter", "write+list", "fw", "fw-noseek", "fw-offset"):
             for chunks in bodies:
                 total = sum(len(c) for c in chunks)
                 for cl in ("none", "exact", "+1", "-1"):
@@ -182,9 +184,9 @@ def programs(tier):
                     if cl != "none":
                         n = total + {"exact": 0, "+1": 1, "-1": -1}[cl]
                         headers.append(("Content-Length", str(n)))
-                    if delivery == "write+iter" and len(chunks) < 2:
+                    if delivery in ("write+iter", "write+list") and len(chunks) < 2:
                         continue
-                    if status[:3] != "200" and (delivery in ("write+iter", "fw-noseek") or len(chunks) > 2):
+                    if status[:3] != "200" and (delivery in ("write+iter", "write+list", "fw-noseek", "fw-offset") or len(chunks) > 2):
                         continue
                     out.append(dict(status=status, headers=headers, delivery=delivery, chunks=chunks))
     # start_response called a second time (exc_info) before any output
@@ -201,7 +203,8 @@ def programs(tier):
         for cl in ("none", "exact"):
             headers = [("X-App", "v")] + ([("Content-Length", str(sum(map(len, chunks))))] if cl == "exact" else [])
             for k in (0, 1, 2):
-                out.append(dict(status="200 OK", headers=headers, delivery="gen", chunks=chunks, exc=("chunk", k)))
+                for cls in ("ValueError", "OSError", "ConnectionResetError"):
+                    out.append(dict(status="200 OK", headers=headers, delivery="gen", chunks=chunks, exc=("chunk", k), exc_class=cls))
     return out
 
 
@@ -222,11 +225,12 @@ def cases(tier):
             if req["method"] == "POST" and tier == "quick" and prog["delivery"] not in ("list", "fw"):
                 continue
             for depth in (1, 2):
-                if depth == 1:
-                    yield dict(requests=[req], programs=[prog])
-                else:
-                    probe = dict(method="GET", version=req["version"], conn="keep-alive" if req["version"] == "1.0" else None)
-                    yield dict(requests=[req, probe], programs=[prog, PROBE])
+                for logsock in ((True, False) if prog.get("exc") else (True,)):
+                    if depth == 1:
+                        yield dict(requests=[req], programs=[prog], logsock=logsock)
+                    else:
+                        probe = dict(method="GET", version=req["version"], conn="keep-alive" if req["version"] == "1.0" else None)
+                        yield dict(requests=[req, probe], programs=[prog, PROBE], logsock=logsock)
 
 
 def _batch(items):
